@@ -36,6 +36,7 @@ func propC01(w *World, r *Run) {
 	ruleComposedSQL(w, r, "C01.f")
 	ruleComposedInMemory(w, r, "C01.f")
 	ruleOneStatement(w, r, "C01.g") // the statement Set runs replaces the row the next GetLatest reads
+	ruleSQLStoreReachesMain(w, r, "C01.h")
 }
 
 func propC02(w *World, r *Run) {
@@ -68,6 +69,7 @@ func propC03(w *World, r *Run) {
 	ruleEndpointErrorBodies(w, r, "C03.e")
 	ruleAdapter(w, r, "C03.f")
 	ruleNoDetachedAnswer(w, r, "C03.g")
+	ruleImplicitPanic(w, r, "C03.h", reachableModule(w, []*ssa.Function{w.fn(fnUpdate)}))
 }
 
 func propC04(w *World, r *Run) {
@@ -84,6 +86,7 @@ func propC04(w *World, r *Run) {
 	ruleReadAPIAs(w, r, "C04.f")
 	ruleStoredBytesNotRecycled(w, r, "C04.g")
 	ruleClientReadsWholeBody(w, r, "C04.h")
+	ruleDistributorAs(w, r, "C15.a", "C04.j")
 }
 
 func propC07(w *World, r *Run) {
@@ -103,6 +106,7 @@ func propC07(w *World, r *Run) {
 	ruleNoLeakedTx(w, r, "C07.f")
 	ruleNoFalseSuccessAtEndpoint(w, r, a, "C07.h")
 	ruleNoMemoisedStorageError(w, r, "C07.i")
+	ruleRowsClosed(w, r, "C07.j")
 }
 
 func propC08(w *World, r *Run) {
@@ -120,6 +124,7 @@ func propC08(w *World, r *Run) {
 	ruleServeHTTP(w, r, "C08.e", "C08.e", "C08.e")
 	ruleStrictInteger(w, r, "C08.f")
 	ruleWitnessBytesImmutable(w, r, "C08.g")
+	ruleBastionGetsAllLogs(w, r, "C08.h")
 }
 
 func propC09(w *World, r *Run) {
@@ -135,6 +140,7 @@ func propC09(w *World, r *Run) {
 	ruleParseBodyTotal(w, r, "C09.e", "C09.e")
 	ruleAdapter(w, r, "C09.f")
 	ruleComposedInMemory(w, r, "C09.g")
+	ruleBastionGetsAllLogs(w, r, "C09.h")
 }
 
 func propC20(w *World, r *Run) {
@@ -149,6 +155,8 @@ func propC20(w *World, r *Run) {
 	ruleLabelArity(w, r, "C20.e")
 	ruleCommitBeforeAck(w, r, "C20.f")
 	ruleCounterStateLocked(w, r, "C20.g")
+	ruleUpdateNotReentered(w, r, "C20.h")
+	ruleVerdictStatusAfterUpdate(w, r, "C20.i")
 }
 
 func init() {
@@ -173,6 +181,7 @@ func propC05(w *World, r *Run) {
 	ruleNoNestedStorage(w, r, a, "C05.h")
 	ruleNotFoundExact(w, r, "C05.i")
 	ruleStoredBytesNotRecycled(w, r, "C05.g")
+	ruleAdapter(w, r, "C05.j")
 }
 
 func propC06(w *World, r *Run) {
@@ -189,6 +198,8 @@ func propC06(w *World, r *Run) {
 	ruleReadVerbatim(w, r, "C06.e")
 	ruleComposedSQL(w, r, "C06.e")
 	ruleDBFileOnlyThroughSQL(w, r, "C06.f")
+	ruleNoFalseSuccessAtEndpoint(w, r, analyseUpdate(w, r), "C06.g")
+	ruleSQLStoreReachesMain(w, r, "C06.h")
 }
 
 func init() {
@@ -212,6 +223,8 @@ func propC10(w *World, r *Run) {
 	ruleParseBodyTotal(w, r, "C10.f", "C10.f")
 	ruleAdapter(w, r, "C10.i")
 	rulePooledBytesDontEscape(w, r, "C10.j")
+	ruleNotFoundExact(w, r, "C10.k")
+	ruleVerdictStatusAfterUpdate(w, r, "C10.l")
 }
 
 func propC11(w *World, r *Run) {
@@ -242,6 +255,7 @@ func propC13(w *World, r *Run) {
 	ruleFetchUnderCallersContext(w, r, "C13.h")
 	ruleNeverGivesUp(w, r, "C13.i")
 	rulePooledBytesDontEscape(w, r, "C13.j")
+	ruleSizeNarrowing(w, r, "C13.k")
 }
 
 func init() {
@@ -294,6 +308,7 @@ func propC12(w *World, r *Run) {
 	ruleGlobals(w, r, "C12.e", []string{pWitness, pBastion, pRest, pMon, pInmem, pSQL, pOmni, pConfig, pFeeder})
 	ruleImmut(w, r, "C12.e", immutCoreFields(w, r, "C12.e"))
 	ruleReadAPIAs(w, r, "C12.g")
+	ruleDistributorAs(w, r, "C15.c", "C12.h")
 }
 
 func propC14(w *World, r *Run) {
@@ -336,6 +351,7 @@ func propC17(w *World, r *Run) {
 	ruleYAMLStrictness(w, r, "C17.a")
 	ruleGlobalContainers(w, r, "C17.e", []string{pConfig, pOmni, pFeeder, pBastion, pRest})
 	ruleConfigSliceNotMutated(w, r, "C17.f")
+	ruleServeHTTP(w, r, "C17.g", "C17.g", "C17.g") // a configured log's submissions reach the witness: the endpoint pronounces no verdict of its own
 }
 
 func propC18(w *World, r *Run) {
@@ -356,6 +372,7 @@ func propC19(w *World, r *Run) {
 	r.trusted = append(tbCommon, "strings.Split returns >= 1 element; note.Open returns >= 1 verified signature on success; tlog.ParseTree enforces a 32-byte root")
 	reach := ruleExplicitPanic(w, r, "C19.a")
 	ruleImplicitPanic(w, r, "C19.b", reach)
+	ruleDecodeIntoSizedBuffer(w, r, "C19.n", reach)
 	ruleSumDBRaw(w, r, "C19.b")
 	ruleSizeNarrowing(w, r, "C19.c")
 	ruleServeHTTP(w, r, "C19.d", "C19.d", "C19.d")
